@@ -9,7 +9,10 @@
    <echo>  ::= '{' { keyword '=' value } '}'                                                    (space separated)
    value   ::= b0 | b1 | i<int> | q<num>/<den> | s<hex> | e<name> | c- | c<code>
    answers ::= EXIT <n> | STUCK | RUN <k=value ...> | <k=value ...>        (D, S)
-             | FAIL <n> | STUCK | DONE <hex of the embedding file>                         (M) *)
+             | FAIL <n> | STUCK | DONE <hex of the embedding file>                         (M)
+     A { readings } argvhex...    model from the raw argv (cxxopts scan + cli_decide gen_tables)
+     T { readings } argvhex...    specification from the raw argv
+     B <code> <echo> { readings } argvhex...   obs_ok_argv *)
 open C20_model
 
 let rec pos_of_int n = if n = 1 then XH else if n land 1 = 1 then XI (pos_of_int (n lsr 1)) else XO (pos_of_int (n lsr 1))
@@ -137,6 +140,27 @@ let split_echo toks =
     go [] r
   | _ -> failwith "echo expected"
 
+(* readings table:  { hex:zi:qd ... }  ('-' = the parser throws; hex '-' = empty string) *)
+let split_readings toks =
+  match toks with
+  | "{" :: r ->
+    let rec go acc = function
+      | "}" :: rest -> (List.rev acc, rest)
+      | t :: rest ->
+        (match String.split_on_char ':' t with
+         | [h; zi; qd] ->
+           let s = if h = "-" then "" else unhex h in
+           let zi' = if zi = "-" then None else Some (z_of_int (int_of_string zi)) in
+           let qd' = if qd = "-" then None else Some (q_of_string qd) in
+           go ((s, (zi', qd')) :: acc) rest
+         | _ -> failwith ("bad reading " ^ t))
+      | [] -> failwith "unterminated readings" in
+    go [] r
+  | _ -> failwith "readings expected"
+
+let rd_of table = fun cs -> match List.assoc_opt (string_of_coq cs) table with Some r -> r | None -> (None, None)
+let argv_of toks = List.map (fun h -> coq_of_string (if h = "-" then "" else unhex h)) toks
+
 let () =
   try
     while true do
@@ -156,6 +180,18 @@ let () =
           | Done (_, f) -> print_string ("DONE " ^ (let h = hex (string_of_coq f.f_embedding) in if h = "" then "-" else h))
           | Fail c -> print_string (Printf.sprintf "FAIL %d" (int_of_z c))
           | MStuck -> print_string "STUCK")
+       | "A" :: r ->
+         (* A { readings } tok tok ...     model of the current source from the raw argv *)
+         let (rdt, toks') = split_readings r in
+         print_string (show_outcome (cli_decide_argv (rd_of rdt) gen_options gen_tables (argv_of toks')))
+       | "T" :: r ->
+         let (rdt, toks') = split_readings r in
+         print_string (show_outcome (spec_argv (rd_of rdt) (argv_of toks')))
+       | "B" :: code :: r ->
+         (* B code { echo } { readings } tok tok ...    obs_ok from the raw argv *)
+         let (echo, r') = split_echo r in
+         let (rdt, toks') = split_readings r' in
+         print_string (if obs_ok_argv (rd_of rdt) (argv_of toks') (z_of_int (int_of_string code)) echo then "OK" else "BAD")
        | [] -> print_string "EMPTY"
        | _ -> print_string "ERROR bad request");
       print_newline ()
